@@ -106,34 +106,37 @@ func (r *recMetrics) AddStore() int64     { return atomic.LoadInt64(&r.p.addStor
 // ---- broker ---------------------------------------------------------------------
 
 type BrokerOpts struct {
-	Versions       []string
-	ReceiveMax     uint16
-	MaxPacketSize  uint32
-	MaxTopicAlias  uint16
-	ConnectTimeout int
-	Preempt        bool
-	NoRetain       bool
-	SubsID         bool
-	SubsShared     bool
-	Overlap        bool
-	OfflineQoS0    bool
-	KeepAliveForce bool
+	Versions        []string
+	ReceiveMax      uint16
+	MaxPacketSize   uint32
+	MaxTopicAlias   uint16
+	ConnectTimeout  int
+	Preempt         bool
+	NoRetain        bool
+	SubsID          bool
+	SubsShared      bool
+	Overlap         bool
+	OfflineQoS0     bool
+	KeepAliveForce  bool
 	KeepAlivePeriod int
-	Provider       string // "mem" (the shipped default, lock-free trie) — kept for clarity
-	Persist        vlpersistence.IFace
-	Auth           []*progAuth
+	Provider        string // "mem" (the shipped default, lock-free trie) — kept for clarity
+	Persist         vlpersistence.IFace
+	Auth            []*progAuth
+	// OnTopics runs after the topics provider exists and BEFORE the session manager is created: a watcher
+	// subscribed here also sees what the manager publishes while it starts (wills that became due during downtime)
+	OnTopics func(topicsTypes.Provider) error
 }
 
 type Broker struct {
-	Mgr     *clients.Manager
-	Topics  topicsTypes.Provider
-	Persist vlpersistence.IFace
-	Auth    *auth.Manager
-	Opts    BrokerOpts
-	Met     *recMetrics
+	Mgr        *clients.Manager
+	Topics     topicsTypes.Provider
+	Persist    vlpersistence.IFace
+	Auth       *auth.Manager
+	Opts       BrokerOpts
+	Met        *recMetrics
 	topicsDown int32
 	mgrDown    int32
-	authNames []string
+	authNames  []string
 }
 
 func NewBroker(o BrokerOpts) (*Broker, error) {
@@ -166,6 +169,11 @@ func NewBroker(o BrokerOpts) (*Broker, error) {
 	tc.OverlappingSubscriptions = o.Overlap
 	if b.Topics, err = topics.New(tc); err != nil {
 		return nil, err
+	}
+	if o.OnTopics != nil {
+		if err = o.OnTopics(b.Topics); err != nil {
+			return nil, err
+		}
 	}
 	var mc configuration.MqttConfig
 	mc.Version = o.Versions
@@ -371,16 +379,17 @@ func framedLen(b []byte) int {
 
 // ConnectOpts describes a CONNECT.
 type ConnectOpts struct {
-	ID        string
-	Ver       mqttp.ProtocolVersion
-	Clean     bool
-	KeepAlive uint16
-	Expiry    *uint32
-	RecvMax   uint16
-	MaxPacket uint32
-	AliasMax  uint16
+	NoRead     bool // send CONNECT and do not read the answer
+	ID         string
+	Ver        mqttp.ProtocolVersion
+	Clean      bool
+	KeepAlive  uint16
+	Expiry     *uint32
+	RecvMax    uint16
+	MaxPacket  uint32
+	AliasMax   uint16
 	User, Pass string
-	Will      *mqttp.Publish
+	Will       *mqttp.Publish
 }
 
 func (c *Client) Connect(o ConnectOpts) (*mqttp.ConnAck, error) {
@@ -414,6 +423,9 @@ func (c *Client) Connect(o ConnectOpts) (*mqttp.ConnAck, error) {
 	}
 	if err := c.Send(p); err != nil {
 		return nil, err
+	}
+	if o.NoRead {
+		return nil, nil
 	}
 	pkt, err := c.Recv(5 * time.Second)
 	if err != nil {
@@ -460,17 +472,17 @@ func mkAck(ver mqttp.ProtocolVersion, t mqttp.Type, id uint16) *mqttp.Ack {
 // packets (unless NoAck) and for its own publishes (PUBREC -> PUBREL), and records packets.
 type Auto struct {
 	*Client
-	mu      sync.Mutex
-	Pubs    []*mqttp.Publish
-	Others  []mqttp.IFace
-	Seq     []mqttp.IFace // everything, in arrival order
-	PubRaw  [][]byte      // raw bytes of the packets in Pubs
-	aliases map[uint16]string // receiver-side topic alias table (MQTT 5)
-	AliasOnly []bool          // per entry of Pubs: the packet carried no topic (resolved through the table)
-	closed  bool
-	notify  chan struct{}
-	NoAck   bool
-	out     chan mqttp.IFace
+	mu        sync.Mutex
+	Pubs      []*mqttp.Publish
+	Others    []mqttp.IFace
+	Seq       []mqttp.IFace     // everything, in arrival order
+	PubRaw    [][]byte          // raw bytes of the packets in Pubs
+	aliases   map[uint16]string // receiver-side topic alias table (MQTT 5)
+	AliasOnly []bool            // per entry of Pubs: the packet carried no topic (resolved through the table)
+	closed    bool
+	notify    chan struct{}
+	NoAck     bool
+	out       chan mqttp.IFace
 }
 
 func (c *Client) Auto(noAck bool) *Auto {
